@@ -49,7 +49,7 @@ def tlc_jobs(ctx):
             jobs.append(("GenDecompQ_%s.cfg" % k, k, "main", "I=>A + export: 1..2 streams, clen 3..5, ulen 0..4, every truncation and corrupted byte"))
             jobs.append(("GenDecomp3Q_%s.cfg" % k, k, "main", "I=>A + export: 1..3 streams, clen 3..4, ulen 0..2, no fault"))
         else:
-            jobs.append(("GenDecomp_%s.cfg" % k, k, "main", "I=>A + export: 1..2 streams, clen 3..5, ulen 0..5, every truncation and corrupted byte"))
+            jobs.append(("GenDecomp_%s.cfg" % k, k, "main", "I=>A + export: 1..2 streams, clen 3..6, ulen 0..5, every truncation and corrupted byte"))
             jobs.append(("GenDecomp3_%s.cfg" % k, k, "main", "I=>A + export: 1..3 streams, clen 3..4, ulen 0..2, every truncation"))
         jobs.append(("GenDecompRT_%s.cfg" % k, k, "rt", "round trip through the library's compressor, <= 3 writes of 0..3 bytes, with liveness"))
         jobs.append(("MCDecompL1_%s.cfg" % k, k, "live", "termination under weak fairness, one stream, every fault"))
@@ -400,9 +400,10 @@ def binaries(ctx):
     return vlib.build_many(specs)     # at most two compilers
 
 
-def replay_cases(ctx, binary, hcases, timeout=2400):
+def replay_cases(ctx, binary, hcases, timeout=900, watchdog=10):
     slim = [{k: v for k, v in hc.items() if k != "abstract"} for hc in hcases]
-    res = vlib.replay_cases(binary, slim, timeout=timeout)
+    # a hanging decompressor is killed by the harness watchdog and shows up as a crashed case; a handful suffices
+    res = vlib.replay_cases(binary, slim, timeout=timeout, env={"VH_WATCHDOG": str(watchdog)}, max_crashes=6)
     if len(res) != len(hcases):
         raise vlib.ModelFailure("replay returned %d results for %d cases" % (len(res), len(hcases)))
     byid = {hc["id"]: hc for hc in hcases}
@@ -415,7 +416,9 @@ def replay_cases(ctx, binary, hcases, timeout=2400):
         bad += 1
         hc = byid[r["id"]]
         if "crash" in r:
-            what = "real decompressor %s at step %s: %s" % (r["crash"], r.get("step"), r.get("stderr", "")[:700])
+            if "HANG:" in r.get("stderr", ""):
+                r["crash"] = "hang"
+            what = "real decompressor %s at step %s: %s" % (r["crash"], r.get("step"), r.get("stderr", "").strip()[:700])
         else:
             what = "%s: outcome differs from the spec at step %s: exp=%s got=%s; file: %s" % (
                 r.get("note", ""), r.get("step"), json.dumps(r.get("exp"))[:200], json.dumps(r.get("got"))[:300],
@@ -548,7 +551,7 @@ def thorough_extra(ctx, lib, cases, bins):
         for c in none + tr:
             idx += 1
             big += concretize_big(ctx, lib, c, idx)
-    replay_cases(ctx, bins[1], big, timeout=3000)
+    replay_cases(ctx, bins[1], big, timeout=3000, watchdog=600)
     return out + big
 
 
@@ -598,3 +601,17 @@ def replay(ctx, path):
         ctx.sample({k: v for k, v in hc.items() if k not in ("lib", "id")})
     finally:
         shutil.rmtree(lib.path, ignore_errors=True)
+
+
+def selftest(ctx):
+    """binding of the design check: for the algorithms as they were before the F2/F3 repairs (Algo = "legacy") TLC must
+    find a counterexample to Correct; prints the file of each counterexample"""
+    bad = 0
+    for k in ("bz2fd", "bz2buf", "gzbuf"):
+        r = vlib.tlc("Decompress", "MCDecompLegacy_%s.cfg" % k, workers=2, extra=["-noGenerateSpecTE"])
+        hit = bool(r.violation) and "Correct" in r.violation
+        files = [ln.strip() for ln in (r.violation or "").splitlines() if "streams |->" in ln]
+        vlib.log("selftest %s legacy algorithm: %s %s" % (k, "rejected by TLC (Correct violated)" if hit else "NOT rejected",
+                                                         files[1] if len(files) > 1 else ""))
+        bad += 0 if hit else 1
+    return 2 if bad else 0
